@@ -54,6 +54,7 @@ COMPILER_REPLAYS = {
     "u_fieldnames": ["replay/c02/struct_field_names.sh"],
     "u_constrname": ["replay/c04/tparam_app.sh"],
     "u_placeholder": ["replay/c04/placeholder_field.sh"],
+    "u_report": ["replay/c04/lower_error_in_dep.sh"],
     "u_derive": ["replay/c18/prim_fields.sh"],
     "u_patlit": ["replay/c03/run.sh"],
     "u_annot": ["replay/c03/annotations.sh"],
